@@ -44,7 +44,9 @@ def jobs(tier, seed):
     for i, r in enumerate(RADII):
         out.append({'name': 'circle-kernel-r%d' % i, 'kind': 'circle', 'radius': r})
     # cells exactly on the ellipse (Pythagorean offsets 3-4-5, 5-12-13, 8-15-17, 7-24-25 / 15-20-25): concrete radius and cell size, the comparison must be exact
-    for i, (cx, cy, r) in enumerate(((1.0, 1.0, 5), (1.0, 1.0, 13), (0.5, 0.5, 6.5), (2.0, 1.0, 26), (1.0, 1.0, 17), (30.0, 30.0, '0.75km'))):
+    for i, (cx, cy, r) in enumerate(((1.0, 1.0, 5), (1.0, 1.0, 13), (0.5, 0.5, 6.5), (2.0, 1.0, 26), (1.0, 1.0, 17), (30.0, 30.0, '0.75km'),
+                                   # decimal cell sizes whose float quotient and float floor-quotient differ (1.0 / 0.1 == 10.0 but 1.0 // 0.1 == 9.0; 0.9 / 0.3 vs 0.9 // 0.3)
+                                   (0.1, 0.25, 1), (0.3, 0.1, 0.9))):
         out.append({'name': 'circle-kernel-on-the-circle-%d' % i, 'kind': 'circle-fixed', 'radius': r, 'cellsize': [cx, cy]})
     for ro in (2, 3):
         for ri in (0.5, 1):
